@@ -30,6 +30,22 @@
 #     the same decorations on the template name T; such names also occur in the engine's history.
 #     Trees of this stream also contain partials with odd but REAL names (the empty name = file
 #     ".ast.json", "a.ast.json" = file "a.ast.json.ast.json", nested folders), which must be found.
+#   * PROCESS-WIDE STATE of the module's template functions ("funcs" stream, ~27% of the cases): the
+#     partials call the REAL functions of /repo/templatefunctions that the module registers (debug, JSON,
+#     Math, Object, stripTags, truncate, capitalize, trim, escapeHtml, startsWith, parseInt, parseFloat),
+#     with and without their optional arguments (debug(v, false), debug(v, true), stripTags(s, [..])),
+#     on ordinary values and on awkward ones: numbers that cannot be JSON-encoded (NaN, +-Inf), a value
+#     whose MarshalJSON fails, objects with zero-argument methods (getters, one of which yields NaN for
+#     some data), nil pointers, Go funcs, undefined names, null.  Whatever such a call leaves behind in
+#     the process shows in a LATER partial of the same request or in the judged call after an earlier
+#     request of the history, because the reference renders every name in a process of its own.
+#   * LOADS in the engine's history ("reload" histories ~19%, also inside "mixed"): LoadTemplates(f) and
+#     the module's DebugController (GET /_pugtpl/debug?tpl=f) with f = the page template itself, one of
+#     its partials, the partial folder, a proper prefix of the page name, another template, a name that
+#     does not exist, "" - before, between and after renders and partial requests.  On a production-mode
+#     engine that never loaded, a filtered load as FIRST call is outside the property's domain (the
+#     engine then holds the filtered templates only; C17_filtered_first_refuted): generated with a small
+#     share ("filtered-first"), judged against the model only.
 import json
 import posixpath
 import unicodedata
@@ -131,13 +147,120 @@ def gen_partial(rng, label, kind, fields):
     return json.dumps({"type": "Block", "nodes": [n_tag("section", nodes)]}), reads, writes
 
 
+# ------------------------------------------------------------------ partials that call template functions
+
+ORDINARY = ["x", "y", "n", "items", "tags", "cfg", "opts", "cust.firstname", "stats.orders",
+            "items.length", "'lit'", "3", "{a: 1, b: 'two'}", "[1, 'b']"]
+# objects with zero-argument methods (getters) and bound getters themselves: how they are JSON-encoded
+# (method called / described) is the module's business
+GETTERS = ["cust", "cust", "cust", "{c: cust}", "[cust, 1]", "{c: [cust]}", "cust.displayName"]
+# values a function may choke on: not encodable (NaN / Inf for some data, a failing MarshalJSON) ...
+UNENCODABLE = ["stats", "stats", "bad", "{b: bad}", "[1, bad]", "[stats.conversion]", "{v: stats}", "stats.conversion"]
+# ... nil pointers, Go funcs, undefined names, null
+ODD = ["np", "cb", "missing", "null"]
+AWKWARD = UNENCODABLE + ODD
+STRINGS = ["x", "y", "'<b>t</b><i>u</i> &amp; <script>s</script>'", "cust.firstname", "cust.lastname", "'  pad  '"]
+JSON_TEXTS = ['{"k":[1,2],"z":"v"}', '[1,"a",null]', '"s"', '{"k":{"id":7}}']
+
+
+def fvalue(rng, getters, unenc, odd):
+    r = rng.random()
+    if r < getters:
+        return rng.choice(GETTERS)
+    if r < getters + unenc:
+        return rng.choice(UNENCODABLE)
+    if r < getters + unenc + odd:
+        return rng.choice(ODD)
+    return rng.choice(ORDINARY)
+
+
+def fstring(rng):
+    r = rng.random()
+    if r < 0.08:
+        return rng.choice(["missing", "null", "n", "np", "items", "bad"])     # not a string at all
+    return rng.choice(STRINGS)
+
+
+def func_stmt(rng, family=None):
+    """one statement calling a real template function; returns (js expression, tags for the statistics).
+    family "json": only the functions that JSON-encode their argument (a page of debug / data-island partials)"""
+    weights = [38, 20, 4, 10, 12, 9, 7] if family != "json" else [62, 34, 4, 0, 0, 0, 0]
+    k = rng.choices(["debug", "stringify", "parse", "strip", "text", "num", "object"], weights)[0]
+    if k == "debug":
+        v = fvalue(rng, 0.25, 0.3, 0.1) if family != "json" else fvalue(rng, 0.4, 0.42, 0.04)
+        opt = rng.choices(["", ", false", ", true"], [32, 50, 18])[0]
+        tags = {"debug"}
+        if opt:
+            tags.add("debug-option")
+        if opt == ", false" and v in UNENCODABLE:
+            tags.add("option-on-awkward")
+        if v in GETTERS:
+            tags.add("encodes-getters")
+        return "debug(%s%s)" % (v, opt), tags
+    if k == "stringify":
+        v = fvalue(rng, 0.35, 0.08, 0.1) if family != "json" else fvalue(rng, 0.62, 0.05, 0.06)
+        tags = {"stringify"}
+        if v in GETTERS:
+            tags.add("encodes-getters")
+        return "JSON.stringify(%s)" % v, tags
+    if k == "parse":
+        return "JSON.parse(%s).k" % js_str(rng.choice(JSON_TEXTS)), {"parse"}
+    if k == "strip":
+        if rng.random() < 0.3:
+            return "stripTags(%s, %s)" % (fstring(rng), rng.choice(["['b']", "['i', 'b']", "[]", "null"])), {"stripTags"}
+        return "stripTags(%s)" % fstring(rng), {"stripTags"}
+    if k == "text":
+        f = rng.choice(["truncate(%s, 3)", "capitalize(%s)", "trim(%s)", "escapeHtml(%s)", "startsWith(%s, 'v')"])
+        return f % fstring(rng), {"text"}
+    if k == "num":
+        f = rng.choice(["parseInt(%s)", "parseFloat(%s)", "Math.max(%s, 2)", "Math.min(3, %s)", "Math.ceil(%s)",
+                        "Math.round(%s)", "Math.trunc(%s)"])
+        return f % rng.choice(["n", "stats.orders", "'12'", "y", "stats.conversion", "missing", "items.length"]), {"num"}
+    return rng.choice(["Object.keys(%s)" % rng.choice(["cfg", "opts", "{b: 1, a: 2}", "cust", "missing"]),
+                       "Object.assign({}, cfg, opts).k", "Object.assign({k: 'own'}, opts).k"]), {"object"}
+
+
+def gen_func_partial(rng, label, family=None):
+    nodes = [n_text(label + ":")]
+    tags = set()
+    for _ in range(rng.choice([1, 1, 2, 2, 3] if family != "json" else [1, 1, 1, 2])):
+        expr, tg = func_stmt(rng, family)
+        tags |= tg
+        r = rng.random()
+        if r < 0.15:
+            nodes.append(n_code("var d = " + expr, False))          # result kept in a variable, printed or not
+            if rng.random() < 0.6:
+                nodes.append(n_tag("i", [n_code("d", True)], True))
+        else:
+            c = n_code(expr, True)
+            c["mustEscape"] = rng.random() < 0.5
+            nodes.append(n_tag(rng.choice(["pre", "span", "script"]), [c], rng.random() < 0.5))
+    return json.dumps({"type": "Block", "nodes": [n_tag("section", nodes)]}), tags
+
+
+def func_data(rng):
+    """the extra data fields the function partials use (typed values, see harness c17Val)"""
+    def fl():
+        return {"t": "float", "v": rng.choice(["nan", "nan", "nan", "inf", "inf", "-inf", "0.25", "1e21"])}
+    orders = rng.choice([0, 0, 3, 12])
+    visits = rng.choice([0, 4, 7, 40])          # no visits: conversion = orders/0 (Inf) or 0/0 (NaN)
+    stats = [[hx("orders"), {"t": "float", "v": str(orders)}], [hx("visits"), {"t": "float", "v": str(visits)}],
+             [hx("conversion"), fl()]]
+    return [[hx("cust"), {"t": "getter", "v": {"First": hx(rng.choice(["Jane", "<J>", "é"])), "Last": hx(rng.choice(["Doe", ""])),
+                                                "Orders": orders, "Visits": visits}}],
+            [hx("stats"), {"t": "map", "v": stats}],
+            [hx("bad"), {"t": "unenc", "v": "no"}],
+            [hx("np"), {"t": "nilptr", "v": None}],
+            [hx("cb"), {"t": "fn", "v": None}]]
+
+
 # ------------------------------------------------------------------ data (typed, see harness c17Val)
 
 def d_str(s):
     return {"t": "str", "v": hx(s)}
 
 
-def gen_data(rng):
+def gen_data(rng, funcs=False):
     def lst():
         ws = [rng.choice(WORDS) for _ in range(rng.choice([0, 1, 2, 3, 5]))]
         if rng.random() < 0.4:
@@ -157,6 +280,8 @@ def gen_data(rng):
         ents.append([hx(f), lst()])
     for f in OBJS:
         ents.append([hx(f), obj()])
+    if funcs:
+        ents += func_data(rng)
     return {"t": "map", "v": ents}
 
 
@@ -248,14 +373,50 @@ def resolves(tree, t, p):
 
 # ------------------------------------------------------------------ engine history
 
-HISTORIES = [("fresh", 34), ("load", 18), ("page", 12), ("one", 12), ("partials", 16), ("mixed", 8)]
+HISTORIES = [("fresh", 26), ("load", 12), ("page", 9), ("one", 9), ("partials", 13), ("mixed", 9), ("reload", 19),
+             ("filtered-first", 3)]
 
 
-def gen_prep(rng, t, existing, req, tree=None, treq=None):
+def gen_filter(rng, t, existing, names):
+    """the filter of a LoadTemplates / the tpl of a debug request; names = all template names of the tree"""
+    full = [t + ".partial/" + p for p in existing]
+    others = [n for n in names if n != t and not n.startswith(t + ".partial/")]
+    alts = [
+        ("page", lambda: t),
+        ("partial", lambda: rng.choice(full) if full else t + ".partial/nope"),
+        ("partial-folder", lambda: t + rng.choice([".partial", ".partial/", ".", ".part"])),
+        ("page-prefix", lambda: t[:rng.randint(1, len(t) - 1)] if len(t) > 1 else t),
+        ("partial-prefix", lambda: (lambda f: f[:rng.randint(len(t) + 9, len(f))])(rng.choice(full)) if full else t + ".partial/n"),
+        ("other-template", lambda: rng.choice(others) if others else "no/such/page"),
+        ("nonexistent", lambda: rng.choice(["nope", t + "x", t + ".partial/nope", "zz/" + t])),
+        ("decorated", lambda: rng.choice([t + "/", "./" + t, t + ".ast.json", "/" + t])),
+        ("everything", lambda: ""),
+    ]
+    kind, f = rng.choices(alts, [30, 15, 10, 10, 5, 10, 8, 5, 7])[0]
+    return kind, f()
+
+
+def hist_ok(prep):
+    """mirror of Models.Partials.hist_ok (statistics only; the judge computes its own)"""
+    for op in prep:
+        if op["op"] in ("load", "debugctl"):
+            return not unhx(op.get("filter", ""))
+        if op["op"] == "render" or op["names"]:
+            return True
+    return True
+
+
+def gen_prep(rng, t, existing, req, tree=None, treq=None, names=(), traffic=False):
     """history of the engine under test.  t = the page of the tree; tree (paths stream only) = names of
     all files: then some earlier calls also carry names written with path syntax; treq = the (possibly
-    decorated) template name of the judged call."""
+    decorated) template name of the judged call; names = all template names of the tree."""
     kind = rng.choices([h for h, _ in HISTORIES], [w for _, w in HISTORIES])[0]
+    if traffic and existing and rng.random() < 0.45:
+        kind = "traffic"
+
+    def reload():
+        fk, f = gen_filter(rng, t, existing, names)
+        return {"op": rng.choices(["load", "debugctl"], [60, 40])[0], "filter": hx(f), "fkind": fk}
 
     def odd(base=None):
         return decorate_partial(rng, t, base or rng.choice(existing or NAMES), tree)[1]
@@ -303,17 +464,43 @@ def gen_prep(rng, t, existing, req, tree=None, treq=None):
         return kind, [one()]
     if kind == "partials":
         return kind, [partials()]
+    if kind == "traffic":
+        # a process that has been serving for a while: several earlier requests for partials of the page
+        # (each with its own data, see other_data) - whatever one of them left behind is still there
+        ops = [{"op": "load"}] if rng.random() < 0.5 else []
+        for _ in range(rng.randint(3, 8)):
+            if rng.random() < 0.4:
+                ops.append({"op": "render", "name": hx(t + ".partial/" + rng.choice(existing))})
+            else:
+                ops.append({"op": "partials", "t": hx(t),
+                            "names": [hx(rng.choice(existing)) for _ in range(rng.randint(1, 3))]})
+        return kind, ops
+    if kind == "filtered-first":
+        # outside the domain on a production engine: the very first call is a filtered load
+        return kind, [reload()] + [rng.choice([reload(), one(), partials(), {"op": "load"}])
+                                   for _ in range(rng.choice([0, 0, 1, 2]))]
+    if kind == "reload":
+        # an engine that has everything loaded (start-up preload, a first page view, an earlier partial
+        # request), then single templates are reloaded - alone, several, with other calls in between
+        ops = [rng.choice([{"op": "load"}, {"op": "load"}, {"op": "render", "name": hx(t)}, partials()])]
+        for _ in range(rng.choice([1, 1, 2, 3])):
+            if rng.random() < 0.3:
+                ops.append(rng.choice([one(), partials(), {"op": "render", "name": hx(t)}]))
+            ops.append(reload())
+        if rng.random() < 0.25:
+            ops.append(rng.choice([one(), partials()]))
+        return kind, ops
     ops = []
     for _ in range(rng.randint(2, 4)):
-        ops.append(rng.choice([{"op": "load"}, {"op": "render", "name": hx(t)}, one(), partials()]))
+        ops.append(rng.choice([{"op": "load"}, {"op": "render", "name": hx(t)}, one(), partials(), reload()]))
     return kind, ops
 
 
-def other_data(rng, prep):
+def other_data(rng, prep, funcs=False):
     """about half of the earlier render calls belong to another request: they come with other data"""
     for op in prep:
-        if op["op"] != "load" and rng.random() < 0.5:
-            op["data"] = gen_data(rng)
+        if op["op"] not in ("load", "debugctl") and rng.random() < 0.5:
+            op["data"] = gen_data(rng, funcs)
     return prep
 
 
@@ -324,63 +511,108 @@ class C17(Prop):
     prop_module = "Props.C17"
     prop_file = "Props/C17.v"
     coq_targets = ["Props/C17.vo", "Run/Judge_C17.vo"]
-    sizes = {"quick": 400, "thorough": 10000}
+    sizes = {"quick": 600, "thorough": 10000}
     design_ref = "DESIGN.md section 6 C17"
     rule = ("generated template trees with .partial/ folders and request lists (empty, duplicates, unknown names, "
             "permutations) x engine history before the judged RenderPartials call (fresh engine with no "
-            "LoadTemplates/Render ~1/3; preloaded; page render; one partial render; earlier RenderPartials incl. "
-            "failing ones; mixed; earlier calls with the same or with other data) x partial templates (plain, readers of list/object/number fields, mutators "
-            "of the data they are given: push/pop/shift/unshift/sort/splice/member and top-level assignment) x typed "
-            "Go data (map[string]interface{}, []interface{}, []string, map[string]string, int, string) x "
-            "configuration (debug mode, rate limit 0/1/2). ~40% of the cases are the 'which partials exist' stream: "
-            "the request names partials and/or the template T with path syntax that only RESOLVES to a template "
-            "of the tree when cleaned like a file path (trailing slash, './' prefix, '/.' suffix, 'x/../b', doubled "
-            "and leading slashes, '../T' = the page itself, '../T.partial/b', '../other.partial/z' = partial of "
-            "another template, directory names, '', '.', '..', '.ast.json' suffix, other letter case, other unicode "
-            "normal form, backslashes, blanks) - alone, several, mixed with existing names at any position, also "
-            "in the engine's history - and trees with odd but real partial names (empty name = file '.ast.json', "
-            "'a.ast.json', 'b/', nested folders). A partial EXISTS iff the literal string T.partial/p is a file "
-            "of the generated tree (the harness reports the files found on disk; they must equal the generated "
-            "set): the oracle demands error + nil map as soon as one requested name is not in that set, whatever "
-            "Engine.Render says about the name. Reference for contents = every requested/universe name rendered "
-            "alone by Engine.Render on a separate preloaded engine with a fresh copy of the data. Non-trivial = at "
-            "least two requested names, an unknown one, or a fresh engine; distinct by SHA-1 of the case")
+            "LoadTemplates/Render ~1/4; preloaded; page render; one partial render; earlier RenderPartials incl. "
+            "failing ones; mixed; 'reload' ~19%: a loaded engine, then LoadTemplates(f) or the module's "
+            "DebugController (GET /_pugtpl/debug?tpl=f) with f = the page template itself, one of its partials, the "
+            "partial folder, a proper prefix of the page or of a partial name, another template, a name that does "
+            "not exist, a decorated name or '' - alone, several, with renders / partial requests in between; "
+            "'traffic': 3-8 earlier requests for partials of the page; 'filtered-first' ~3%: a filtered load as the "
+            "very first call, which is OUTSIDE the domain on a production engine and judged against the model only; "
+            "earlier calls with the same or with other data) x partial templates (plain, readers of "
+            "list/object/number fields, mutators of the data they are given: push/pop/shift/unshift/sort/splice/"
+            "member and top-level assignment) x typed Go data (map[string]interface{}, []interface{}, []string, "
+            "map[string]string, int, string) x configuration (debug mode, rate limit 0/1/2). ~30% of the cases are "
+            "the 'which partials exist' stream: the request names partials and/or the template T with path syntax "
+            "that only RESOLVES to a template of the tree when cleaned like a file path (trailing slash, './' prefix, "
+            "'/.' suffix, 'x/../b', doubled and leading slashes, '../T' = the page itself, '../T.partial/b', "
+            "'../other.partial/z' = partial of another template, directory names, '', '.', '..', '.ast.json' suffix, "
+            "other letter case, other unicode normal form, backslashes, blanks) - alone, several, mixed with existing "
+            "names at any position, also in the engine's history - and trees with odd but real partial names (empty "
+            "name = file '.ast.json', 'a.ast.json', 'b/', nested folders). ~33% are the 'template functions / "
+            "process-wide state' stream: the partials call the REAL functions of /repo/templatefunctions (debug, "
+            "JSON.stringify/parse, Math.*, Object.keys/assign, stripTags, truncate, capitalize, trim, escapeHtml, "
+            "startsWith, parseInt, parseFloat) with and without their optional arguments (debug(v, false|true), "
+            "stripTags(s, tags)) on ordinary values and on awkward ones (NaN/+-Inf numbers, a value whose MarshalJSON "
+            "fails, objects with zero-argument methods one of which yields NaN/Inf for customers without visits, nil "
+            "pointer, Go func, undefined name, null, non-strings where a string is expected); about half of these "
+            "trees are pages whose partials only print debug/JSON output, and about 45% of the histories of this "
+            "stream are 'traffic'. A partial EXISTS iff the literal string T.partial/p is a file of the generated "
+            "tree (the harness reports the files found on disk; they must equal the generated set): the oracle "
+            "demands error + nil map as soon as one requested name is not in that set or fails when rendered alone, "
+            "whatever Engine.Render says about the name. Reference for contents = every distinct requested name that "
+            "is a file, rendered alone by Engine.Render on a preloaded engine IN AN OPERATING-SYSTEM PROCESS OF ITS "
+            "OWN (the harness binary re-executed) with a fresh copy of the data; the engine under test (history + "
+            "judged call) also runs in a process of its own, so no package variable, cache or pool is shared between "
+            "cases, between reference and test, or between two reference renders. Non-trivial = at least two "
+            "requested names, an unknown one, or a fresh engine; distinct by SHA-1 of the case")
     trusted = ["Engine.Render is a Section variable of C17_keys/_content/_error_atomic/_order_irrelevant/"
-               "_history_independent (arbitrary function of the template name); in C17_spec_tree/"
-               "_unknown_name_errors/_success_iff_all_exist it is the exact lookup of the name in the set of files "
-               "of the tree followed by an arbitrary execution function. The judge instantiates the file set with "
-               "the generated tree (= the files the harness found on disk) and the execution with the per-name "
-               "results observed on a SEPARATE reference engine (same tree, same debug mode, preloaded), each with "
+               "_history_independent (arbitrary function of the template name; in _history_independent also an "
+               "arbitrary load function); in C17_spec_tree/_unknown_name_errors/_success_iff_all_exist it is the "
+               "exact lookup of the name in the set of files of the tree followed by an arbitrary execution function; "
+               "in C17_reloads_harmless/_fresh_engine_history/_debug_engine it is Models.Partials.render_eng: the "
+               "engine's template set as state (None = never loaded), LoadTemplates(filter) = load (prefix rule of "
+               "compileDir + keep-what-the-filter-does-not-cover of loadTemplates, 'again' error of a second full "
+               "load), load-on-demand of Render in production and in debug mode, exact lookup, arbitrary execution. "
+               "The judge instantiates the file set with the generated tree (= the files the harness found on disk), "
+               "the history with the calls the engine under test received, and the execution with the per-name "
+               "results observed in SEPARATE reference processes (same tree, same debug mode, preloaded), each with "
                "its own freshly built copy of the data",
                "existence of a partial in the oracle is string membership of T.partial/p in the file set, computed "
                "in Coq from the generated tree; it does not consult Engine.Render or the model",
                "the harness builds the data as ordinary Go values anew for every call (reference renders, "
-               "history operations, the judged call); equal data means equal value, not the same object"]
-    assumptions = ["data is given as ordinary Go values (maps, slices, strings, ints), not as already converted "
-                   "pugjs.Object trees: a caller who hands in one shared mutable pugjs.Object shares it by "
-                   "construction",
-                   "generated partials execute without template errors on the generated data; the template files "
-                   "do not change between the calls of one case; one goroutine per engine",
+               "history operations, the judged call); equal data means equal value, not the same object",
+               "'rendered on its own' is taken as: rendered by a process that has done nothing but load the templates; "
+               "process isolation is the operating system's (os/exec of the harness binary, runner C17one); a child "
+               "the Go runtime kills is reported as class 'crash' (= no content)",
+               "the DebugController is driven through its exported Get method with a web.Request built by "
+               "web.CreateRequest (no router); its panic 'tpl not found' is recovered and ignored"]
+    assumptions = ["data is given as ordinary Go values (maps, slices, strings, numbers, pointers to structs with "
+                   "methods, funcs), not as already converted pugjs.Object trees",
+                   "the template files do not change between the calls of one case and every file compiles; one "
+                   "goroutine per engine; a generated partial may fail when executed (JSON.stringify of a value that "
+                   "cannot be encoded, a function applied to nil) - then it fails alone as well and the oracle demands "
+                   "the error",
+                   "DOMAIN (dom17, computed in Coq from the history): on a production-mode engine that never loaded, "
+                   "the first call that touches the template set is not a FILTERED load. Observed on the real code, "
+                   "modelled (load) and proved necessary (C17_filtered_first_refuted): LoadTemplates('home.partial/a') "
+                   "or GET /_pugtpl/debug?tpl=home on such an engine marks it as loaded with the filtered templates "
+                   "only, so existing partials outside the filter are 'not found' until restart. Such histories are "
+                   "generated (~3%) and judged against the model only (they agree). Applications preload at start-up",
+                   "values with reference cycles are not generated: encoding one (debug(o) with o.self = o) exhausts "
+                   "the Go stack and kills the process, alone and in a request alike",
                    "the file tree has clean relative paths only and lives on a case-sensitive file system without "
                    "unicode normalisation (Linux); no symbolic links; request names are valid UTF-8 without NUL",
-                   "C17_history_independent assumes that Render's result does not depend on the engine/data state "
-                   "left by earlier calls (hypothesis visible in the theorem); the correspondence check tests that "
-                   "hypothesis on the real code via the history and mutator dimensions"]
-    not_yet_proved = ["that compileDir registers exactly one key per file <name>.ast.json (key = clean relative path) and "
-                      "that Engine.Render looks the name up verbatim is modelled (render_lookup) and checked by "
-                      "correspondence on the generated trees and names, not derived from the Go source",
-                      "that the real Engine.Render is a function of (template tree, name, data value) only is "
-                      "observed (separate reference engine, histories, mutating partials), not proved: Render itself "
-                      "is a parameter of the C17 theorems",
-                      "partials that include/extend other templates or call mixins of other files; concurrent "
-                      "RenderPartials calls on one engine (C08/C09 cover concurrency of Render)"]
+                   "C17_history_independent assumes that Render's result does not depend on the engine/process/data "
+                   "state left by earlier calls (hypothesis visible in the theorem); for the engine's template set the "
+                   "hypothesis is PROVED of the model (C17_reloads_harmless, C17_fresh_engine_history, "
+                   "C17_debug_engine); for everything else (data objects, process-wide state of template functions) "
+                   "the correspondence check tests it on the real code via the history, mutator and function streams"]
+    not_yet_proved = ["that compileDir registers exactly one key per file <name>.ast.json (key = clean relative path), "
+                      "compiles exactly the files whose name has the filter as prefix, and that Engine.Render looks the "
+                      "name up verbatim is modelled (load, render_eng, render_lookup) and checked by correspondence on "
+                      "the generated trees, names and histories, not derived from the Go source",
+                      "that the real Engine.Render is a function of (template tree, name, data value) only - in "
+                      "particular that no template function leaves process-wide state behind - is observed (separate "
+                      "reference processes, histories, mutating partials, function partials), not proved: the "
+                      "execution of a template is a parameter (exec) of the C17 theorems",
+                      "partials that include/extend other templates or call mixins of other files; template functions "
+                      "that need the router / injector (asset, url, tryUrl, data, get); concurrent RenderPartials calls "
+                      "or loads on one engine (C08/C09/C10 cover concurrency of Render and LoadTemplates)"]
 
     def generate(self, rng, n, tier):
         cases = []
         for _ in range(n):
             t0 = rng.choice(TEMPLATES)            # the page whose file is in the tree
-            paths = rng.random() < 0.4            # the "which partials exist" stream
+            stream = rng.random()
+            paths = stream < 0.30                 # the "which partials exist" stream
+            funcs = 0.30 <= stream < 0.63         # the "template functions / process-wide state" stream
             k = rng.choice([0, 1, 2, 3, 4, 6]) if not paths else rng.choice([1, 2, 3, 4])
+            if funcs:
+                k = rng.choice([2, 3, 3, 4, 5])
             existing = rng.sample(NAMES, k)
             if paths and rng.random() < 0.3:
                 existing += rng.sample(ODD_REAL_NAMES, rng.choice([1, 1, 2]))
@@ -389,7 +621,14 @@ class C17(Prop):
             stateful = rng.random() < 0.55
             fields = rng.sample(LISTS + OBJS + NUMS + SCALARS, rng.choice([1, 2, 3]))
             info = {}
+            ftags = {}
+            family = "json" if funcs and rng.random() < 0.55 else None
             for p in existing:
+                if funcs and rng.random() < (0.75 if family is None else 0.9):
+                    ast, ftags[p] = gen_func_partial(rng, "P[" + p + "]", family)
+                    files[hx(t0 + ".partial/" + p)] = hx(ast)
+                    info[p] = (set(), set())
+                    continue
                 if stateful:
                     kind = rng.choices(["mutator", "reader", "plain"], [45, 40, 15])[0]
                 else:
@@ -444,18 +683,32 @@ class C17(Prop):
                 if where in ("template", "both"):
                     kind, t = decorate_template(rng, t0, tree)
                     syntax.append("template:" + kind)
-            universe = sorted(set(NAMES + ["nope"] + req))
-            hist, prep = gen_prep(rng, t0, existing, req, tree if paths else None, t)
-            prep = other_data(rng, prep)
+            hist, prep = gen_prep(rng, t0, existing, req, tree if paths else None, t, tree, traffic=funcs)
+            prep = other_data(rng, prep, funcs)
+            # (statistics) a function called with an explicit option on a value it may fail on, earlier in
+            # the request or in the history than a partial that JSON-encodes an object with getters
+            seq = []
+            for op in prep:
+                if op["op"] == "render" and unhx(op["name"]).decode().startswith(t0 + ".partial/"):
+                    seq.append(unhx(op["name"]).decode()[len(t0) + 9:])
+                elif op["op"] == "partials":
+                    seq += [unhx(x).decode() for x in op["names"]]
+            seq += req
+            fseq = [ftags.get(p, set()) for p in seq]
+            opt_then_getters = any("option-on-awkward" in fseq[i] and "encodes-getters" in fseq[j]
+                                   for i in range(len(fseq)) for j in range(i + 1, len(fseq)))
             # mutator requested before a partial that reads what it changed (or requested twice)
             sens = any(info[req[i]][1] & info[req[j]][0]
                        for i in range(len(req)) for j in range(i + 1, len(req))
                        if req[i] in info and req[j] in info)
             cases.append({"files": files, "template": hx(t), "partials": [hx(p) for p in req],
-                          "universe": [hx(u) for u in universe], "data": gen_data(rng),
+                          "data": gen_data(rng, funcs),
                           "prep": prep, "debug": rng.random() < 0.1, "limit": rng.choice([0, 0, 0, 1, 2]),
                           "meta": {"history": hist, "stateful": stateful, "mutator_before_reader": sens,
-                                   "path_syntax": syntax,
+                                   "path_syntax": syntax, "funcs": funcs,
+                                   "func_partials_requested": sum(1 for p in req if p in ftags),
+                                   "func_tags": sorted(set().union(*[ftags.get(p, set()) for p in seq]) if seq else []),
+                                   "option_on_awkward_before_getter_encoder": opt_then_getters,
                                    "resolves_only": sum(resolves(tree, t, p) for p in set(req))}})
         return cases
 
@@ -477,9 +730,19 @@ class C17(Prop):
                                  for e in (obs["entries"] or [])]))
         else:
             go = b"None"
+        hist = []
+        for op in case.get("prep", []):
+            if op["op"] in ("load", "debugctl"):
+                hist.append(b"(CLoad " + cq_bytes(unhx(op.get("filter", ""))) + b")")
+            elif op["op"] == "render":
+                hist.append(b"(CRender " + cq_bytes(unhx(op["name"])) + b")")
+            else:
+                hist.append(b"(CPartials " + cq_bytes(unhx(op["t"]) if op.get("t") is not None else t) + b" " +
+                            cq_list([cq_bytes(unhx(x)) for x in op["names"]]) + b")")
         return (b"{| files := " + cq_list([cq_bytes(k) for k in tree]) + b"; table := " + cq_list(table) + b"; tname := " + cq_bytes(t) +
                 b"; req := " + cq_list([cq_bytes(unhx(p)) for p in case["partials"]]) +
-                b"; go := " + go + b"; go_nil_on_err := " + cq_bool(obs["nil_map"]) + b" |}")
+                b"; go := " + go + b"; go_nil_on_err := " + cq_bool(obs["nil_map"]) +
+                b"; dbg := " + cq_bool(bool(case.get("debug"))) + b"; hist := " + cq_list(hist) + b" |}")
 
     def nontrivial(self, case, obs):
         return len(case["partials"]) >= 2 or obs["class"] != "ok" or not case.get("prep")
@@ -487,7 +750,10 @@ class C17(Prop):
     def sample(self, case, obs):
         return {"template": unhx(case["template"]).decode(), "files": sorted(unhx(k).decode() for k in case["files"]),
                 "request": [unhx(p).decode() for p in case["partials"]],
-                "history": [o["op"] for o in case.get("prep", [])], "debug": case.get("debug", False),
+                "history": [o["op"] + (":" + unhx(o["filter"]).decode(errors="replace") if "filter" in o else "")
+                            for o in case.get("prep", [])], "debug": case.get("debug", False),
+                "history_outcomes": obs.get("prep"),
+                "alone": {unhx(a["name"]).decode(errors="replace"): a["res"]["class"] for a in obs["alone"]},
                 "path_syntax": case.get("meta", {}).get("path_syntax", []),
                 "go_class": obs["class"],
                 "go_keys": [unhx(e["key"]).decode() for e in (obs["entries"] or [])]}
@@ -543,7 +809,7 @@ class C17(Prop):
                 yield w(files=f2)
 
     def model_expr(self):
-        return "(model17 c, exists17 c)"
+        return "(model17 c, exists17 c, state17 c, dom17 c)"
 
     def distribution(self, cases, obss):
         d = {"empty_request": 0, "with_duplicates": 0, "with_unknown": 0, "go_error": 0,
@@ -551,7 +817,12 @@ class C17(Prop):
              "mutator_before_reader": 0, "debug_engine": 0, "rate_limited": 0, "history": {},
              "path_syntax_cases": 0, "path_syntax_in_request": 0, "path_syntax_on_template": 0,
              "request_with_name_that_only_resolves": 0, "only_resolving_mixed_with_existing": 0,
-             "path_syntax_request_succeeds": 0, "path_syntax": {}}
+             "path_syntax_request_succeeds": 0, "path_syntax": {},
+             "funcs_stream_cases": 0, "function_partial_in_request": 0, "function_kinds": {},
+             "option_on_awkward_value_before_getter_encoder": 0, "requested_partial_fails_alone": 0,
+             "history_with_filtered_load": 0, "history_with_debug_controller": 0, "filter_kinds": {},
+             "reload_covering_requested_partials_then_all_exist": 0,
+             "off_domain_filtered_load_first": 0, "processes": 0}
         for c, o in zip(cases, obss):
             ps = c["partials"]
             d["empty_request"] += not ps
@@ -577,6 +848,27 @@ class C17(Prop):
             d["path_syntax_request_succeeds"] += bool(syn) and o["class"] == "ok"
             for x in syn:
                 d["path_syntax"][x] = d["path_syntax"].get(x, 0) + 1
+            d["funcs_stream_cases"] += bool(m.get("funcs"))
+            d["function_partial_in_request"] += bool(m.get("func_partials_requested"))
+            for x in m.get("func_tags") or []:
+                d["function_kinds"][x] = d["function_kinds"].get(x, 0) + 1
+            d["option_on_awkward_value_before_getter_encoder"] += bool(m.get("option_on_awkward_before_getter_encoder"))
+            d["requested_partial_fails_alone"] += any(
+                a["res"]["class"] != "ok" and hx(unhx(c["template"]) + b".partial/" + unhx(a["name"])) in c["files"]
+                for a in o["alone"])
+            prep = c.get("prep") or []
+            flt = [op for op in prep if op["op"] in ("load", "debugctl") and unhx(op.get("filter", ""))]
+            d["history_with_filtered_load"] += bool(flt)
+            d["history_with_debug_controller"] += any(op["op"] == "debugctl" for op in prep)
+            for op in flt:
+                fk = op.get("fkind", "corpus")
+                d["filter_kinds"][fk] = d["filter_kinds"].get(fk, 0) + 1
+            tp = unhx(c["template"]) + b".partial/"
+            d["reload_covering_requested_partials_then_all_exist"] += bool(ps) and not unk and not c.get("debug") and any(
+                (tp + unhx(p)).startswith(unhx(op["filter"])) and tp + unhx(p) != unhx(op["filter"])
+                for op in flt for p in ps)
+            d["off_domain_filtered_load_first"] += (not c.get("debug")) and not hist_ok(prep)
+            d["processes"] += o.get("procs", 0)
             h = m.get("history", "corpus")
             d["history"][h] = d["history"].get(h, 0) + 1
         return d
